@@ -482,6 +482,38 @@ func c14Large(c *hx.Client, newConn func() *hx.Client, grams []*hx.CmdGrammar, h
 		{"HSCAN bighash 0 MATCH <60001-byte pattern>", []string{"HSCAN", "bighash", "0", "MATCH", longPat}},
 		{"ZSCAN bigz 0 MATCH <60001-byte pattern>", []string{"ZSCAN", "bigz", "0", "MATCH", longPat}},
 		{"SET <1 MB key> v", []string{"SET", strings.Repeat("k", 1<<20), "v"}},
+		// the largest integers where a count, a limit, an index or a time-to-live is expected
+		{"ZRANGEBYSCORE bigz -inf +inf LIMIT 0 maxint", []string{"ZRANGEBYSCORE", "bigz", "-inf", "+inf", "LIMIT", "0", "9223372036854775807"}},
+		{"ZREVRANGEBYSCORE bigz +inf -inf LIMIT 0 maxint", []string{"ZREVRANGEBYSCORE", "bigz", "+inf", "-inf", "LIMIT", "0", "9223372036854775807"}},
+		{"ZRANGE bigz -inf +inf BYSCORE LIMIT maxint maxint", []string{"ZRANGE", "bigz", "-inf", "+inf", "BYSCORE", "LIMIT", "9223372036854775807", "9223372036854775807"}},
+		{"ZRANGE bigz 0 maxint", []string{"ZRANGE", "bigz", "0", "9223372036854775807"}},
+		{"ZRANGEBYSCORE nokey -inf +inf LIMIT 0 maxint", []string{"ZRANGEBYSCORE", "nokey", "-inf", "+inf", "LIMIT", "0", "9223372036854775807"}},
+		{"SCAN 0 COUNT maxint", []string{"SCAN", "0", "COUNT", "9223372036854775807"}},
+		{"SSCAN bigset 0 COUNT maxint", []string{"SSCAN", "bigset", "0", "COUNT", "9223372036854775807"}},
+		{"HSCAN bighash 0 COUNT maxint", []string{"HSCAN", "bighash", "0", "COUNT", "9223372036854775807"}},
+		{"ZSCAN bigz 0 COUNT maxint", []string{"ZSCAN", "bigz", "0", "COUNT", "9223372036854775807"}},
+		{"SCAN maxint", []string{"SCAN", "9223372036854775807"}},
+		{"LRANGE biglist 0 maxint", []string{"LRANGE", "biglist", "0", "9223372036854775807"}},
+		{"LRANGE biglist minint maxint", []string{"LRANGE", "biglist", "-9223372036854775808", "9223372036854775807"}},
+		{"LTRIM biglist minint maxint", []string{"LTRIM", "biglist", "-9223372036854775808", "9223372036854775807"}},
+		{"LINDEX biglist maxint", []string{"LINDEX", "biglist", "9223372036854775807"}},
+		{"LSET biglist minint v", []string{"LSET", "biglist", "-9223372036854775808", "v"}},
+		{"LREM biglist maxint a", []string{"LREM", "biglist", "9223372036854775807", "a"}},
+		{"LREM biglist minint a", []string{"LREM", "biglist", "-9223372036854775808", "a"}},
+		{"ZREMRANGEBYRANK bigz 0 maxint", []string{"ZREMRANGEBYRANK", "bigz", "0", "9223372036854775807"}},
+		{"ZREMRANGEBYRANK bigz minint maxint", []string{"ZREMRANGEBYRANK", "bigz", "-9223372036854775808", "9223372036854775807"}},
+		{"EXPIRE bigstr maxint", []string{"EXPIRE", "bigstr", "9223372036854775807"}},
+		{"PEXPIRE bigstr maxint", []string{"PEXPIRE", "bigstr", "9223372036854775807"}},
+		{"EXPIREAT bigstr maxint", []string{"EXPIREAT", "bigstr", "9223372036854775807"}},
+		{"SET bigstr v EX maxint", []string{"SET", "bigstr", "v", "EX", "9223372036854775807"}},
+		{"SET bigstr v PX maxint", []string{"SET", "bigstr", "v", "PX", "9223372036854775807"}},
+		{"SETEX bigstr maxint v", []string{"SETEX", "bigstr", "9223372036854775807", "v"}},
+		{"INCRBY bigstr maxint", []string{"INCRBY", "bigstr", "9223372036854775807"}},
+		{"DECRBY bigstr minint", []string{"DECRBY", "bigstr", "-9223372036854775808"}},
+		{"ZUNION maxint bigz", []string{"ZUNION", "9223372036854775807", "bigz"}},
+		{"ZINTERSTORE d maxint bigz", []string{"ZINTERSTORE", "d", "9223372036854775807", "bigz"}},
+		{"SPOP bigset maxint", []string{"SPOP", "bigset", "9223372036854775807"}},
+		{"LPOP biglist maxint", []string{"LPOP", "biglist", "9223372036854775807"}},
 		{"GET <1 MB key>", []string{"GET", strings.Repeat("k", 1<<20)}},
 	}
 	// a request the storage refuses with an error of its own while the command runs: LINSERT
@@ -1225,6 +1257,34 @@ func c13QueuedExpiry(c *hx.Client, srvPath string, hist *[][]string) {
 		}
 	}
 	do("DEL", "kq")
+	// a time-to-live too large for the clock arithmetic is refused (the documented error of SET)
+	// and nothing changes
+	for _, cmd := range [][]string{{"SET", "kbig", "new", "EX", "10000000000"}, {"SET", "kbig", "new", "PX", "9223372036855"}, {"SET", "kbig", "new", "EX", "9223372036854775807"},
+		{"SET", "kbig", "new", "XX", "EX", "10000000000"}, {"SET", "kfresh", "new", "NX", "EX", "9223372036854775807"}} {
+		if _, ok := do("SET", "kbig", "old", "EX", "5000"); !ok {
+			return
+		}
+		do("DEL", "kfresh")
+		before, err1 := hx.ContentOfFile(srvPath)
+		r, ok := do(cmd...)
+		if !ok {
+			return
+		}
+		after, err2 := hx.ContentOfFile(srvPath)
+		sum.Handled++
+		if err1 != nil || err2 != nil {
+			continue
+		}
+		if r.Kind != '-' {
+			fail("c13-reply", fmt.Sprintf("%s answered %s; a time-to-live that overflows the clock arithmetic is refused with an error", q(cmd), r.Canon()), *hist)
+			return
+		}
+		if same, why := hx.SameContent(before, after); !same {
+			fail("c13-state", fmt.Sprintf("%s was refused (%s) and yet changed the database (%s)", q(cmd), r.Canon(), why), *hist)
+			return
+		}
+	}
+	do("DEL", "kbig", "kfresh")
 }
 
 // c13KeywordKeys: every command that has option keywords, on a key of its type that is NAMED like
